@@ -35,6 +35,21 @@ func (x *Exec) call(st *State, fr *frame, site ssa.Instruction, cc *ssa.CallComm
 			return
 		}
 		name := "(" + ifn + ")." + cc.Method.Name()
+		if con := s.Spec.Contracts[name]; con != nil && con.Impl != "" {
+			// closed world: the interface has exactly one implementation in the repository packages
+			// loaded (checked here); the call is that implementation's, on an unknown receiver value
+			m := s.Prog.Func(con.Impl)
+			if m == nil || m.Signature.Recv() == nil {
+				subsetf("contract of %s: implementation %s not found", name, con.Impl)
+			}
+			if why := s.closedWorld(cc.Value.Type(), m); why != "" {
+				subsetf("contract of %s: %s", name, why)
+			}
+			s.Assumed["closed world: every "+ifn+" is a "+m.Signature.Recv().Type().String()+" (the only implementation in the repository packages loaded; wiring of the module is not under contract)"] = true
+			rv := s.symVal(s.fresh("impl:"+cc.Method.Name()), m.Signature.Recv().Type())
+			x.callFunc(st, fr, site, m, append([]Val{rv}, args...), nil, k)
+			return
+		}
 		if con := s.Spec.Contracts[name]; con != nil {
 			sig := cc.Method.Type().(*types.Signature)
 			x.applyContract(st, fr, con, name, sig, nil, append([]Val{recv}, args...), x.captureResult(name, k))
@@ -655,6 +670,52 @@ func (x *Exec) applyContract(st *State, fr *frame, con *Contract, name string, s
 		st.assume(fmt.Sprintf("(forall (%s) %s)", strings.Join(bs, " "), implies(and(ghostReqs...), and(quant...))))
 	}
 	k(st, resV)
+}
+
+// closedWorld: "" when the receiver type of impl is the only named type declared in the loaded
+// repository packages that implements the interface type it; otherwise the reason.
+func (s *Session) closedWorld(it types.Type, impl *ssa.Function) string {
+	iface, ok := it.Underlying().(*types.Interface)
+	if !ok {
+		return "not an interface type"
+	}
+	want := impl.Signature.Recv().Type()
+	found := false
+	for _, pk := range s.Prog.Prog.AllPackages() {
+		path := pk.Pkg.Path()
+		if !strings.HasPrefix(path, "github.com/regen-network/regen-ledger") && path != "unit" {
+			continue
+		}
+		if strings.Contains(path, "/mocks") || strings.HasSuffix(path, "/testutil") {
+			continue
+		}
+		sc := pk.Pkg.Scope()
+		for _, n := range sc.Names() {
+			tn, ok := sc.Lookup(n).(*types.TypeName)
+			if !ok || tn.IsAlias() {
+				continue
+			}
+			t := tn.Type()
+			if _, isI := t.Underlying().(*types.Interface); isI {
+				continue
+			}
+			for _, cand := range []types.Type{t, types.NewPointer(t)} {
+				if types.Implements(cand, iface) {
+					if types.Identical(cand, want) {
+						found = true
+					} else if _, isPtr := cand.(*types.Pointer); isPtr && types.Implements(t, iface) {
+						// the pointer type of an implementing value type: same implementation
+					} else {
+						return "a second implementation exists: " + cand.String()
+					}
+				}
+			}
+		}
+	}
+	if !found {
+		return "the named implementation does not implement the interface"
+	}
+	return ""
 }
 
 func shortName(n string) string {
